@@ -5,8 +5,10 @@ closedness predicates (Model/Closed.lean) run on every REAL Core / Mono / Lift /
 accepted corpus / generated program, each with the signature environment of its stage dumped from
 genv / monoenv / liftenv; the annotations the dumps drop are cross-checked by the harness; and an
 ill-typed stream — one type error injected at one forced position of a well-typed generated program
-(plus hand-written programs around array lengths, fields, arguments) — must be rejected by the real
-compiler in the typer stage (not accepted, not a panic, not a later stage).
+(plus hand-written programs around array lengths, fields, arguments; the deterministic catalogues `arity:` — a wrong
+argument COUNT at every call form — and `argtype:` — a wrong argument TYPE at every argument position of every call
+form, harness/src/c03arity.rs / c03argty.rs) — must be rejected by the real compiler in the typer stage (not accepted,
+not a panic, not a later stage).
 The theorems (Props/C03.lean) are about the same `Wt`/`Closed` definitions and the model of mono.
 """
 import os, re, subprocess
@@ -262,10 +264,50 @@ def arity_oracle(ctx, progs, res):
             "accepted_wrong_count_variants": n_acc, "of_which_flagged_by_count_oracle_and_Wt_on_Core": n_flagged}
 
 
+def argty_oracle(ctx, progs, res):
+    """argument TYPE (harness/src/c03argty.rs): (a) the `argtype:` catalogue is complete — every call form of the
+    call-form catalogue that has an argument position whose type the call fixes has accepted twins (its variants are
+    judged by the ill-typed oracle in run(): accepted / panic / rejected outside the typer are violations);
+    (b) an ACCEPTED wrong-type variant must be flagged by `Wt.errs` on its Core dump — otherwise the judgement that
+    every accepted program's dumps go through is blind to a wrong argument type: tie broken."""
+    summary = None
+    path = os.path.join(ctx.run_dir, "c03.cases.tsv")
+    for r in (vlib.read_tsv(path) if os.path.exists(path) else []):
+        if r[0] == "#ARGTY":
+            summary = r[1:]
+    forms = {}
+    if summary is None or len(summary) < 2 or summary[0] == "no-environment":
+        ctx.broken_ties.append(("argument-type catalogue", f"the harness did not produce the argument-type catalogue: {summary}"))
+    else:
+        for item in summary[1].split():
+            name, _, ab = item.rpartition("=")
+            a, _, b = ab.partition("/")
+            forms[name] = int(a)
+            if int(a) == 0:
+                ctx.broken_ties.append(("argument-type catalogue", f"no accepted twin for call form {name}: the catalogue no longer exercises it"))
+        if len(forms) < 40:
+            ctx.broken_ties.append(("argument-type catalogue", f"only {len(forms)} call forms in the catalogue (expected every form of c03arity.rs::sites with an argument)"))
+    n_acc = n_flagged = 0
+    for k, d in progs.items():
+        ill = d.get("ill")
+        if not ill or not ill["kind"].startswith("argtype:") or ill["outcome"] != "accepted":
+            continue
+        n_acc += 1
+        wt = (res.get(f"{k}|core") or ["?"])[0]
+        if wt not in ("wt", "?"):
+            n_flagged += 1
+        else:
+            ctx.broken_ties.append(("argument type", f"{k}: accepted with a wrong argument type, but Wt.errs does not flag the Core dump (Wt: {wt})"))
+    return {"catalogue": (summary[0] if summary else ""), "catalogue_cases_per_call_form": forms,
+            "accepted_wrong_type_variants": n_acc, "of_which_flagged_by_Wt_on_Core": n_flagged}
+
+
 def run(ctx):
     ctx.extract()
     ctx.build_lean([m for m in ("GomlVerif.Props.C03", "GomlVerif.Props.C03pres", "GomlVerif.Props.C03Arity",
                                 "GomlVerif.Props.Unify", "GomlVerif.Props.Solve", "GomlVerif.Props.Infer")
+    ctx.build_lean([m for m in ("GomlVerif.Props.C03", "GomlVerif.Props.C03pres", "GomlVerif.Props.C03Arity", "GomlVerif.Props.C03ArgTy",
+                                "GomlVerif.Props.Unify", "GomlVerif.Props.Solve")
                     if os.path.exists(os.path.join(vlib.LEAN, m.replace(".", "/") + ".lean"))])
     if not ctx.build_harness():
         return ctx.finish("proof", {"evaluations": 0, "distinct_nontrivial": 0}, [], "lake build")
@@ -444,6 +486,7 @@ def run(ctx):
     from props import tsound
     cov["type_soundness_of_Sem(sem_preserves_types_partial, traitcall_static_dispatch)"] = tsound.collect_and_evaluate(ctx)
     ctx.assumptions += tsound.ASSUMPTIONS
+    cov["argument_type(c03argty.rs)"] = argty_oracle(ctx, progs, res)
     ctx.assumptions += [
         "Wt.errs (Model/Wt.lean) is our statement of type consistency of the IR; the signature environment is dumped from the real genv/monoenv/liftenv",
         "a callee annotation with the wildcard array length (array_get/array_set) is read as 'any length', as the typer's unifier does",
